@@ -119,7 +119,7 @@ def setup_rs(cx):
                 sequence=cx.val('sequence', TSeq(TStr)))
 
 
-# what the preceding part of run_system establishes (assumed for this region, listed as unchecked in the evidence):
+# what the preceding part of run_system establishes (proved by run_system[lengths] below: its first three postconditions):
 #   molecule_lengths = residue counts of the selected molecules in system order; len(sequence) = their sum
 LIVE_IN = [
     "0 <= sel_len and sel_len <= len(system.molecules)",
@@ -173,6 +173,103 @@ run_system_assign = FunctionContract(
 )
 CONTRACTS.append(run_system_assign)
 LEMMAS.extend([L_mono, L_nonneg])
+
+
+# ------------------------------------------------------------------ utils.are_all_equal on a list of integers
+are_all_equal = FunctionContract(
+    'vermouth/utils.py', 'are_all_equal', 'C17', short='are_all_equal[list of int]',
+    setup=lambda cx: dict(iterable=cx.val('iterable', TSeq(TInt))),
+    ensures=["result == forall(lambda k: implies(0 <= k and k < len(iterable), iterable[k] == iterable[0]))"],
+    canary=[("first = next(iterator, None)", "first = None")],
+)
+CONTRACTS.append(are_all_equal)
+
+
+# ------------------------------------------------------------------ AnnotateResidues.run_system, length test and repetition
+def setup_rl(cx):
+    mols = cx.val('mols', TSeq(Mol))
+    world(cx, [])
+    cx.uf('idx_of', [Mol], TInt)
+    selected = cx.uf('selected', [Mol], TBool)
+    cx.uf('sel_ix', [TInt], TInt)
+    cx.uf('sel_rk', [TInt], TInt)
+    cx.spec_env['sel_len'] = SV(TInt, z3.Int('sel_len'))
+    system = cx.obj('System', molecules=mols)
+    self = cx.obj('AnnotateResidues', attribute=cx.val('attribute', TStr), sequence=cx.val('given', TSeq(TStr)),
+                  molecule_selector=Builtin(lambda e, m: wrap(TBool, selected(to_z3(m))), 'molecule_selector'))
+    # utils.are_all_equal by its contract above (proved there for lists of integers)
+    utils = Obj('utils')
+
+    def aae(e, lst):
+        ty = TSeq(TInt)
+        le = to_z3(lst, ty)
+        k = z3.FreshInt('ak')
+        return wrap(TBool, z3.ForAll([k], z3.Implies(z3.And(0 <= k, k < ty.len(le)), ty.at(le, k) == ty.at(le, 0))))
+    utils.attrs['are_all_equal'] = Builtin(aae, 'utils.are_all_equal')
+    cx.spec_env['utils'] = utils
+    return dict(self=self, system=system)
+
+
+SPEC_RL = dict(SPEC_RS)
+SPEC_RL.update({
+    'total': "lambda: PS(molecule_lengths, sel_len)",
+    'per_molecule': "lambda: sel_len > 0 and forall(lambda r: implies(0 <= r and r < sel_len, molecule_lengths[r] == len(self.sequence)))",
+    'per_residue': "lambda: sel_len > 0 and len(self.sequence) == 1",
+    # the three documented scenarios (no selected molecule is only valid with an empty sequence)
+    'valid': "lambda: len(self.sequence) == total() or per_molecule() or per_residue()",
+})
+L_const = Lemma('L_const', [('s', TSeq(TInt)), ('c', TInt), ('i', TInt)], spec_recs=RECS_RS, prop='C17', file=F,
+                requires=["0 <= i and i <= len(s)", "forall(lambda k: implies(0 <= k and k < i, s[k] == c))"],
+                ensures=["PS(s, i) == c * i"], induction='i')
+L_mod = Lemma('L_mod', [('c', TInt), ('n', TInt), ('r', TInt), ('k', TInt)], prop='C17', file=F,
+              requires=["c > 0 and 0 <= r and r < n and 0 <= k and k < c"],
+              ensures=["0 <= c * r + k and c * r + k < c * n and (c * r + k) % c == k"])
+# the r-th stretch of a sequence repeated once per (equally long) molecule is the sequence itself
+L_rep = Lemma('L_rep', [('seq', TSeq(TStr)), ('given', TSeq(TStr)), ('ml', TSeq(TInt)), ('n', TInt), ('r', TInt), ('k', TInt)],
+              spec_recs=RECS_RS, prop='C17', file=F, uses=[L_const, L_mod],
+              requires=["len(given) > 0 and len(ml) == n and len(seq) == len(given) * n",
+                        "forall(lambda i: implies(0 <= i and i < len(seq), seq[i] == given[i % len(given)]))",
+                        "forall(lambda j: implies(0 <= j and j < n, ml[j] == len(given)))",
+                        "0 <= r and r < n and 0 <= k and k < len(given)"],
+              proof="use_lemma('L_const', ml, len(given), r)\nuse_lemma('L_mod', len(given), n, r, k)",
+              ensures=["PS(ml, r) + k < len(seq) and seq[PS(ml, r) + k] == given[k]"])
+run_system_lengths = FunctionContract(
+    F, 'AnnotateResidues.run_system', 'C17', short='run_system[lengths]', setup=setup_rl, spec_defs=SPEC_RL,
+    spec_recs=RECS_RS, spec_env=dict(Mol=Mol, Node=Node), lemmas=[L_mono, L_nonneg, L_const, L_rep],
+    region=dict(start="molecule_lengths = [", end="end = 0"),
+    filters={"self.molecule_selector(molecule)": 'sel'},
+    locals=dict(molecule_lengths=TSeq(TInt), sequence=TSeq(TStr)),
+    axioms=lambda cx, env: [cx.eng._b(cx.eng.spec_truth(a, env)) for a in WORLD_RS],
+    requires=LIVE_IN[:4],
+    ensures=[
+        # what the assignment region relies on
+        "len(molecule_lengths) == sel_len",
+        "forall(lambda r: implies(0 <= r and r < sel_len, molecule_lengths[r] == n_res(sel(r))))",
+        "len(sequence) == total()",
+        # a length mismatch is an error (see raises), so one of the documented scenarios applies ...
+        "valid()",
+        # ... and the stretch of the r-th selected molecule is the given sequence itself (one molecule long), its single
+        # element (one element long), or the corresponding stretch of a sequence as long as the whole selection
+        "implies(per_molecule(), forall(lambda r, k: implies(0 <= r and r < sel_len and 0 <= k and k < molecule_lengths[r], "
+        "   sequence[PS(molecule_lengths, r) + k] == self.sequence[k])))",
+        "implies(not per_molecule() and per_residue(), forall(lambda i: implies(0 <= i and i < total(), "
+        "   sequence[i] == self.sequence[0])))",
+        "implies(not per_molecule() and not per_residue(), forall(lambda i: implies(0 <= i and i < total(), "
+        "   sequence[i] == self.sequence[i])))",
+        "forall(lambda m2, n, a: same_at(m2, n, a), Mol, Node, TStr)",
+    ],
+    raises={'ValueError': ["not valid()", "forall(lambda m2, n, a: same_at(m2, n, a), Mol, Node, TStr)"]},
+    ghost_at={'after:stmt:molecule_lengths = [': "use_lemma('L_nonneg', molecule_lengths, sel_len)\n"
+                                                 "use_lemma('L_nonneg', molecule_lengths, ANY)",
+              'before:stmt:sequence = list(self.sequence) * len(molecule_lengths)':
+                  "use_lemma('L_const', molecule_lengths, len(self.sequence), ANY)",
+              'after:stmt:sequence = list(self.sequence) * len(molecule_lengths)':
+                  "if len(self.sequence) > 0:\n"
+                  "    use_lemma('L_rep', sequence, self.sequence, molecule_lengths, sel_len, ANY, ANY)"},
+    canary=[("and utils.are_all_equal(molecule_lengths)", "and True"), ("elif len(self.sequence) == 1:", "elif len(self.sequence) <= 1:")],
+)
+CONTRACTS.append(run_system_lengths)
+LEMMAS.extend([L_const, L_mod, L_rep])
 
 
 # ------------------------------------------------------------------ table facts, evaluated from the real source (ast)
